@@ -29,3 +29,20 @@ pub fn raw(p: *const u8) -> u8 {
 pub fn now() -> std::time::Instant {
     std::time::Instant::now()
 }
+
+// ---- positive controls for the C01 site enumeration: each of these MUST be enumerated and stay undischarged
+pub fn unguarded_index(v: &[u8]) -> u8 {
+    v[3]
+}
+
+pub fn unguarded_unwrap(v: Option<u8>) -> u8 {
+    v.unwrap()
+}
+
+pub fn unguarded_shift(a: i64, b: i64) -> i64 {
+    a << b
+}
+
+pub fn unguarded_slice(s: &str, n: usize) -> &str {
+    &s[n..]
+}
